@@ -159,7 +159,7 @@ def check_pair(ctx, env, kind, d1, d2, nocache2):
         v2 = env.vec(r2, dom2)
         if v2 != v2_alone:
             i = next(i for i, (x, y) in enumerate(zip(v2, v2_alone)) if x != y)
-            ctx.violation(f"instcache:{diffpath(s1, s2)}", case,
+            _viol(ctx, f"instcache:{diffpath(s1, s2)}", case,
                           f"{r2} matches universe[{i}]={_show(env.univ[dom2][i])} -> {v2[i]} while r1={r1} is alive, but {v2_alone[i]} when built alone")
         eq_before = bool(r1 == r2) or bool(r2 == r1)
         h1, h2 = hash(r1), hash(r2)
@@ -171,13 +171,13 @@ def check_pair(ctx, env, kind, d1, d2, nocache2):
         if not eq:
             return
         if h1 != h2:
-            ctx.violation(f"hash:{localise(env, 'hash', s1, s2)}", case, _san(f"{r1!r} == {r2!r} but hashes differ"))
+            _viol(ctx, f"hash:{localise(env, 'hash', s1, s2)}", case, f"{r1!r} == {r2!r} but hashes differ")
         if dom1 != dom2:
             ctx.count("equal_across_domains")
             return
         if v1 != v2:
             i = next(i for i, (x, y) in enumerate(zip(v1, v2)) if x != y)
-            ctx.violation(f"match:{localise(env, 'match', s1, s2)}", case,
+            _viol(ctx, f"match:{localise(env, 'match', s1, s2)}", case,
                           f"{r1} == {r2} but match({_show(env.univ[dom1][i])}) is {v1[i]} vs {v2[i]}")
         if dom1 == "pkg":
             cr = env.caching_repo(env.FakeRepo(pkgs=env.pkgs), iter)
@@ -185,7 +185,7 @@ def check_pair(ctx, env, kind, d1, d2, nocache2):
             got = [str(p) for p in cr.match(r2)]
             want = [str(p) for p, m in zip(env.pkgs, v2_alone) if m]
             if got != want:
-                ctx.violation(f"cache:caching_repo:{diffpath(s1, s2)}", case,
+                _viol(ctx, f"cache:caching_repo:{diffpath(s1, s2)}", case,
                               f"caching_repo.match(r2) after match(r1) returned {got[:4]}.. ({len(got)}), r2 alone matches {want[:4]}.. ({len(want)})")
 
     res = core.guarded(ctx, case, body)
@@ -203,6 +203,10 @@ def _show(x):
 
 
 _ADDR = re.compile(r"\s*(?:@\s*#?|at )(?:0x)?[0-9a-f]{6,}")
+
+
+def _viol(ctx, bucket, case, msg):
+    ctx.violation(bucket, case, _san(msg))
 
 
 def _san(msg):
@@ -262,7 +266,7 @@ def check_ru(ctx, env, kind, n1, n2):
         sol2 = env.sols(d2)
         fmt = lambda ss: sorted("".join(sorted(x)) or "-" for x in ss)
         if sol2 != sol_alone:
-            ctx.violation(f"required_use:cached-solutions:{kind}", case,
+            _viol(ctx, f"required_use:cached-solutions:{kind}", case,
                           f"solutions of ru2 after compiling ru1: {fmt(sol2)}; alone: {fmt(sol_alone)}")
         ref = {S for S in env.subsets if RP.ru_eval(n2, S)}
         if sol_alone != ref:
@@ -270,10 +274,10 @@ def check_ru(ctx, env, kind, n1, n2):
             ctx.count("solver_differs_from_bruteforce")
         if eq:
             if hash(d1) != hash(d2):
-                ctx.violation(f"hash:depset:{kind}", case, "DepSets compare equal but hashes differ")
+                _viol(ctx, f"hash:depset:{kind}", case, "DepSets compare equal but hashes differ")
             a1, a2 = env.accepts(d1), env.accepts(d2)
             if a1 != a2:
-                ctx.violation(f"match:depset:{kind}", case, "equal DepSets accept different USE sets")
+                _viol(ctx, f"match:depset:{kind}", case, "equal DepSets accept different USE sets")
 
     core.guarded(ctx, case, body)
     ctx.case(case, nontrivial=st_["eq"] and s1 != s2, classes=["t:required_use", f"ru:{kind}"] + (["equal"] if st_["eq"] else []))
@@ -324,10 +328,10 @@ def plan(tier, seed):
         for i in range(4):
             tasks.append({"task": "ru", "examples": 600})
     else:
-        for i in range(24):
-            tasks.append({"task": "hyp", "examples": 30000})
+        for i in range(16):
+            tasks.append({"task": "hyp", "examples": 10000})
         for i in range(8):
-            tasks.append({"task": "ru", "examples": 15000})
+            tasks.append({"task": "ru", "examples": 4000})
     return tasks
 
 
